@@ -21,8 +21,8 @@ func C06(c *mc.Ctx) {
 		alphabet = append(alphabet, "rc:p1:n:r", "req:p1:n:0", "req:p3:n:2", "req:p1:n:huge", "req:p1:n:-1", "req:p1:n:2+req:p3:n:2", "req:p1:n:1+rc:p1:n:s", "rc:p3:n:s", "rc:p2:n:f", "rc:p1:n:s+rc:p3:n:s")
 		depth = 7
 	}
+	c06Groups(c) // the small exploration first: the large one may use up the run's time budget
 	runIC(c, "C06", c06Oracle, fix.Options{}, "icmc", alphabet, depth)
-	c06Groups(c)
 	fix.Cleanup()
 	c.Set("rule", "BFS over block histories of requests with timeout T in {0,1,2,3,huge,-1} (several sharing an expiry height, begin-failed ones), receipts before / in / after the expiry block, empty blocks and reopen between H and H+T; after every block the block's timeout notifications and every transaction status are compared with the reference model (expiry E=H+T, listed once for the source chain iff still BEGIN at the end of block E)")
 	c.Assume("all proofs valid (HappyRule)")
@@ -173,7 +173,7 @@ func c06Groups(c *mc.Ctx) {
 		b.Run()
 	}
 	c.Set("rule_groups", "BFS over block histories of one-to-many groups (2 children on 2 chains; 3 children whose third destination is unregistered) with T=2/3: begins of children in the same or later blocks, success/failure receipts, empty blocks; per block the timeout notifications of the group are compared with the group expiry model (listed for the source chain exactly in block H+T of the first accepted child if the group neither completed nor failed before), and an empty block without expiry must not change any child status")
-	if c.Get("group_timeouts_expected") == 0 {
+	if c.Get("group_timeouts_expected") == 0 && !c.Expired("C06 groups") {
 		c.HarnessError("vacuous: no group timeout expected by the model")
 	}
 }
